@@ -131,8 +131,8 @@ def op_text(op):
         return " ".join([k] + [hx(t) for t in op[1]])
     if k == "setcmd":
         return "setcmd %s %s" % (hx(op[1]), hx(op[2]))
-    if k == "write":
-        return "write %s %s" % (hx(op[1]), op[2])
+    if k in ("write", "writeold"):
+        return "write %s %s" % (hx(op[1]), op[2])       # writeold: same for the model (timestamps are not content)
     if k in ("rm", "mkdir", "fifo", "uncopy"):
         return "%s %s" % (k, hx(op[1]))
     if k == "flink":
@@ -763,6 +763,9 @@ def apply_op(proj, op, mstep, b3):
         rc, se = 0, b""
         if k == "write":
             proj.put("file", op[1], op[2])
+        elif k == "writeold":
+            proj.put("file", op[1], op[2])
+            os.utime(proj.abspath(op[1]), (1577836800, 1577836800))        # the new content carries an old mtime
         elif k == "rm":
             proj.remove(op[1])
         elif k == "mkdir":
